@@ -18,6 +18,7 @@ type scase struct {
 	Err     *rt.ErrSpec
 	Sent    *dg.Val
 	Raw     *rt.RawReq
+	Accept  string
 }
 
 var messages = []string{"résumé \"quoted\" \\ ☃ done", "", "line1\nline2\t<&> 'x'", "plain ascii message", "日本語 ünï", "a; b; c"}
@@ -25,6 +26,10 @@ var safeMessages = []string{"résumé \"quoted\" \\ ☃ done", "plain ascii mess
 var ids = []string{"id-1", "", "abc/123 +x", "ZXhhbXBsZQ", "x"}
 
 const undeclaredName = "zz_not_declared"
+
+// Accept values under which error responses are requested ("" = the client's default: none)
+var acceptPool = []string{"application/json", "application/xml", "text/xml", "*/*",
+	"application/vnd.goa.error+json", "application/vnd.goa.error+xml", "application/json; charset=utf-8", "application/xml;q=0.9", "garbage;;"}
 
 var wrapKinds = []string{"wrapped", "wrapped2", "joined", "multiw", "joined-wrapped"}
 
@@ -56,7 +61,7 @@ func script(rng *vh.RNG, d *dg.Design, s *dg.Service, m *dg.Method, it *built, w
 			if firstDefault == "" {
 				firstDefault = e.Def.Name
 			}
-			inHeaders := e.Resp.Body != nil // attributes travel in goa-attribute-* headers: stay inside wire_safe_err
+			inHeaders := e.Resp.Body != nil || len(e.Resp.Headers) > 0 // attributes travel in headers: stay inside wire_safe_err
 			for k := 0; k < 3; k++ {
 				sp := &rt.ErrSpec{Kind: "declared", Name: e.Def.Name}
 				if inHeaders {
@@ -98,6 +103,46 @@ func script(rng *vh.RNG, d *dg.Design, s *dg.Service, m *dg.Method, it *built, w
 			out = append(out, scase{Class: "custom", ErrName: e.Def.Name, Sent: v,
 				Err: &rt.ErrSpec{Kind: "custom", Name: hubKey(e.Def.Name), Value: d.ToTree(e.Def.T, v)}})
 		}
+	}
+	// -- a slice of the exchanges under a varied Accept header: the first declared error
+	// of each kind and one undeclared service error, each under every Accept of the pool
+	if !witness {
+		var firstD, firstC *scase
+		for i := range out {
+			if out[i].Class == "declared" && firstD == nil {
+				firstD = &out[i]
+			}
+			if out[i].Class == "custom" && firstC == nil {
+				firstC = &out[i]
+			}
+		}
+		var acc []scase
+		for _, a := range acceptPool {
+			if firstD != nil {
+				c := *firstD
+				c.Accept = a
+				acc = append(acc, c)
+			}
+			if firstC != nil {
+				c := *firstC
+				c.Accept = a
+				acc = append(acc, c)
+			}
+			acc = append(acc, scase{Class: "service_undeclared", ErrName: undeclaredName, Accept: a, Err: &rt.ErrSpec{Kind: "service", Name: undeclaredName,
+				Message: "accept " + a, ID: "a1", Temporary: true}})
+		}
+		// gob drops zero-valued fields (finding gob-zero-values-missing): the main stream sends
+		// values without any
+		if firstD != nil {
+			c := *firstD
+			sp := *c.Err
+			sp.Message, sp.ID, sp.Timeout, sp.Temporary, sp.Fault = "gob message", "g1", true, true, true
+			c.Err, c.Accept = &sp, "application/gob"
+			acc = append(acc, c)
+		}
+		acc = append(acc, scase{Class: "service_undeclared", ErrName: undeclaredName, Accept: "application/gob", Err: &rt.ErrSpec{Kind: "service", Name: undeclaredName,
+			Message: "gob undeclared", ID: "g2", Temporary: true, Timeout: true, Fault: true}})
+		out = append(out, acc...)
 	}
 	if witness {
 		out = append(out, witnessScript(d, s, m, eff)...)
@@ -215,6 +260,18 @@ func witnessScript(d *dg.Design, s *dg.Service, m *dg.Method, eff []effErr) []sc
 				v.Set("detail", &dg.Val{K: "string", S: det})
 				out = append(out, scase{Class: "custom", ErrName: "conflict", Sent: v, Err: &rt.ErrSpec{Kind: "custom", Name: hubKey("conflict"), Value: d.ToTree(e.Def.T, v)}})
 			}
+		case d.Name == "witness0" && e.Def.Name == "fail_a":
+			// content negotiation classes (recorded findings): text encoders refuse error bodies,
+			// gob drops zero-valued fields
+			v := &dg.Val{K: "object"}
+			v.Set("why", &dg.Val{K: "string", S: "because"})
+			v.Set("n", &dg.Val{K: "int", I: 0})
+			for _, a := range []string{"text/html", "text/plain"} {
+				out = append(out, scase{Class: "custom", ErrName: "fail_a", Accept: a, Sent: v, Err: &rt.ErrSpec{Kind: "custom", Name: hubKey("fail_a"), Value: d.ToTree(e.Def.T, v)}})
+				out = append(out, scase{Class: "service_undeclared", ErrName: undeclaredName, Accept: a, Err: &rt.ErrSpec{Kind: "service", Name: undeclaredName, Message: "m", ID: "t1", Temporary: true}})
+			}
+			out = append(out, scase{Class: "service_undeclared", ErrName: undeclaredName, Accept: "application/gob", Err: &rt.ErrSpec{Kind: "service", Name: undeclaredName, Message: "m", ID: "g3", Temporary: true}})
+			out = append(out, scase{Class: "custom", ErrName: "fail_a", Accept: "application/gob", Sent: v, Err: &rt.ErrSpec{Kind: "custom", Name: hubKey("fail_a"), Value: d.ToTree(e.Def.T, v)}})
 		case d.Name == "witness1" && e.Def.Name == "no_body":
 			out = append(out, scase{Class: "declared", ErrName: "no_body", Err: &rt.ErrSpec{Kind: "declared", Name: "no_body", Message: "", ID: "i1"}})
 			out = append(out, scase{Class: "declared", ErrName: "no_body", Err: &rt.ErrSpec{Kind: "declared", Name: "no_body", Message: "two\nlines", ID: "i2"}})
